@@ -13,6 +13,10 @@ Inductive case :=
 | CElems (a : absfile) (f : plyfile) (out : outcome)  (* as CSpec, but the file also holds elements the abstract file does
                                                          not mention (before / between vertex and face): the agreement of
                                                          header and body with the Coq reference encoder is not checked *)
+| CMisplaced (a : absfile) (out : outcome)            (* records of another element stand before / between the vertex and face
+                                                         records: outside the property's quantifier (only vertex and face
+                                                         elements are quantified over); the reader decodes foreign bytes, so
+                                                         nothing but "it comes back" is asked (harness flag -misplaced only) *)
 | CRaw (f : plyfile) (out : outcome).                 (* malformed stream or file outside the property's quantifier:
                                                          model vs implementation only *)
 
@@ -55,6 +59,7 @@ Definition corr_ok (c : case) : bool :=
   match c with
   | CSpec a f out => header_agrees a f && body_agrees (enc_body a) (pf_body f) && outcome_matches (read_mesh f) out
   | CElems a f out => outcome_matches (read_mesh f) out
+  | CMisplaced _ _ => true
   | CRaw f out => outcome_matches (read_mesh f) out
   end.
 
@@ -66,5 +71,6 @@ Definition prop_ok (c : case) : bool :=
       | Ok m, OMesh m' => mesh_eqb m m'
       | _, _ => false
       end
+  | CMisplaced _ out => match out with OHang => false | _ => true end
   | CRaw _ out => match out with OHang => false | _ => true end
   end.
